@@ -72,8 +72,11 @@ def gen_script(env, rng, long=False):
     stream = bytearray()
     answered = 0
     n_ops = rng.randrange(3, 40 if long else 16)
+    clean = rng.random() < 0.5        # half of the scripts: no injected faults, only chunking/timing
     for _ in range(n_ops):
         c = rng.random()
+        if clean and c >= 0.92:
+            c = rng.random() * 0.92
         if c < 0.35 and len(sent) - answered < 8:
             k = rng.choice("hhhfqc" if rng.random() < 0.8 else "t")
             if k == "t":
@@ -89,29 +92,31 @@ def gen_script(env, rng, long=False):
             # the peer answers the oldest unanswered request (or something wrong)
             if answered < len(sent):
                 rid, k, corr = sent[answered]
-                fault = rng.random()
+                fault = 1.0 if clean else rng.random()
                 if k == "t":
                     payload = rng.randbytes(rng.randrange(0, 6))
                     frame = payload
                 else:
                     body = gen_body(env, k, rng)
                     usecorr = corr
-                    if fault < 0.07:
+                    if fault < 0.03:
                         usecorr = rng.choice([corr + 1, 0, corr - 1 if corr else 5, rng.randrange(0, 2**31)])
                     hdr = struct.pack(">i", usecorr if usecorr < 2**31 else usecorr - 2**32)
                     if env.kinds[k][2]:
                         hdr += b"\x00"
                     frame = hdr + body
-                    if 0.07 <= fault < 0.12:
+                    if 0.03 <= fault < 0.06:
                         frame = frame[:rng.randrange(0, len(frame))]   # truncated body / header
-                    elif 0.12 <= fault < 0.15:
+                    elif 0.06 <= fault < 0.10:
                         frame = frame + rng.randbytes(2)               # trailing garbage inside the frame
                 answered += 1
+            elif clean or rng.random() < 0.7:
+                continue
             else:
                 # unsolicited reply
                 frame = struct.pack(">i", rng.randrange(0, 100)) + b"\x00\x00\x00\x01\x00\x00"
             size = len(frame)
-            if rng.random() < 0.02:
+            if not clean and rng.random() < 0.008:
                 size = -rng.randrange(1, 5)
             stream += struct.pack(">i", size) + frame
             # deliver some prefix of what is queued, in random chunks
@@ -125,9 +130,13 @@ def gen_script(env, rng, long=False):
         elif c < 0.92 and sent:
             i = rng.randrange(0, nid)
             ops.append((f"C{i}", ("cancel", i)))
-        elif c < 0.96:
+        elif c < 0.94:
             ops.append(("E", ("eof", rng.random() < 0.5)))
+        elif c < 0.96:
+            ops.append(("X", ("close",)))
         else:
+            # client.send's reaction to a request timeout: advance past the deadline, then close
+            ops.append(("A1000", ("advance", 1000)))
             ops.append(("X", ("close",)))
     if stream and rng.random() < 0.7:
         chunk = bytes(stream)
@@ -258,6 +267,20 @@ def run(ctx):
     loop.set_exception_handler(lambda l, c: None)
     lines, impl, meta = [], [], []
     try:
+        # which variant is the code: does a FindCoordinator-v0 waiter accept correlation id 0?
+        body = gen_body(env, "q", rng)
+        frame = struct.pack(">i", 0) + body
+        probe_ops = [(f"STFT:{env.resp_ty('q')}", ("send", "q")),
+                     ("B" + (struct.pack(">i", len(frame)) + frame).hex(), ("feed", struct.pack(">i", len(frame)) + frame))]
+        ptxt = loop.run_until_complete(run_script(env, loop, 5, probe_ops))
+        has_quirk = ":reply:" in ptxt
+        ctx.coverage["quirk_variant"] = has_quirk
+        if has_quirk:
+            ctx.violation("c12:quirk-0.8.2", "FindCoordinatorResponse_v0 waiter (sent id 6) accepted a reply carrying correlation id 0",
+                          {"cases": [{"ctr0": 5, "ops": [[o, [a[0], a[1].hex() if isinstance(a[1], bytes) else a[1]]] for o, a in probe_ops]}],
+                           "observed": ptxt})
+        else:
+            env.kinds["q"] = env.kinds["q"][:3] + (False,) + env.kinds["q"][4:]
         if ctx.replay_cases is not None:
             scripts = [(c["ctr0"], [(o, tuple(a) if not isinstance(a[1], str) or a[0] != "feed" else ("feed", bytes.fromhex(a[1])))
                                      for o, a in c["ops"]]) for c in ctx.replay_cases]
